@@ -108,6 +108,8 @@ func propC01(c *Check) {
 	c.Rule("R3", "quorum-count provenance: the keys verified are proposer.VoteKey plus voters[i].VoteKey appended under bitmap.Contains(i), and the count compared with the threshold is tied to that key slice")
 	c.Rule("R4", "sign-doc binding: the verified message is VoteSignDoc(method, chainID, proposer, sequence, epoch, payload) with all six reaching the hash, and each VoteSigDoc reads every payload field of its message")
 	c.Rule("R5", "key ownership: vote keys reach AggregateVerify only from the relayer keeper's own Voters store")
+	c.Rule("R6", "distinct signers: seats are counted per voter record, so two records must never carry the same vote key — voter records are created only after the new key was compared with every existing record, whatever its status (C16/R6)")
+	c.Depend("R6", "C16", propC16, map[string]bool{"R6": true}, "a vote key held by two members lets one signature count twice toward the quorum")
 
 	voted, _ := p.votedHandlers()
 	c.Floor("R1", "voted handlers", len(voted), 5)
@@ -348,7 +350,7 @@ func propC02(c *Check) {
 		}
 		c.Floor(rule, what+" writers", n, floor)
 	}
-	checkWriters("R1", "sequence", seqWriters, map[string]bool{"x/relayer/keeper.Keeper.SetProposalSeq": true, "x/relayer/module.InitGenesis": true}, 2)
+	checkWriters("R1", "sequence", seqWriters, map[string]bool{"x/relayer/keeper.Keeper.SetProposalSeq": true, "x/relayer/module.InitGenesis": true}, 1)
 	checkWriters("R3", "randao", randaoWriters, map[string]bool{"x/relayer/keeper.Keeper.UpdateRandao": true, "x/relayer/module.InitGenesis": true}, 2)
 
 	cg := p.CG()
@@ -358,6 +360,9 @@ func propC02(c *Check) {
 		nCallers++
 		if votedSet[caller] {
 			c.Held("R1", "SetProposalSeq-caller "+FuncKey(caller), p.Pos(caller.Pos()), "voted handler")
+		} else if FuncKey(caller) == "x/relayer/module.InitGenesis" {
+			nCallers--
+			c.Held("R1", "SetProposalSeq-caller "+FuncKey(caller), p.Pos(caller.Pos()), "genesis import (an allowed writer of the sequence) through the keeper's setter")
 		} else {
 			c.Violated("R1", "SetProposalSeq-caller "+FuncKey(caller), p.Pos(caller.Pos()), "the proposal sequence is advanced outside a voted handler")
 		}
